@@ -90,6 +90,10 @@ type Config struct {
 	Form string
 }
 
+// epoch: the reference time of every locktime this process writes (a day before / after it). One value per process:
+// two secrets that are meant to carry the same locktime must not differ because a second passed between rendering them.
+var epoch = time.Now().Unix()
+
 var nonceCtr uint64
 
 func GenConfig(t *rapid.T, kind string) Config {
@@ -242,11 +246,11 @@ func (c Config) Secret() string {
 	}
 	switch c.Locktime {
 	case "past":
-		tags = append(tags, []string{"locktime", strconv.FormatInt(time.Now().Unix()-86400, 10)})
+		tags = append(tags, []string{"locktime", strconv.FormatInt(epoch-86400, 10)})
 	case "future":
-		tags = append(tags, []string{"locktime", strconv.FormatInt(time.Now().Unix()+86400, 10)})
+		tags = append(tags, []string{"locktime", strconv.FormatInt(epoch+86400, 10)})
 	case "future2":
-		tags = append(tags, []string{"locktime", strconv.FormatInt(time.Now().Unix()+2*86400, 10)})
+		tags = append(tags, []string{"locktime", strconv.FormatInt(epoch+2*86400, 10)})
 	}
 	if c.NRefund > 0 {
 		rf := []string{"refund"}
